@@ -400,10 +400,194 @@ theorem sumSimple_good (a b : QObj) (x y : Rat) :
           rw [v]
           exact ⟨rfl, i, r⟩
 
+/-! ### derived quantities -/
+
+/-- every cached derived quantity is the one a creation on the current registry yields for its key -/
+def DInv (s : CState) : Prop := ∀ k d, dcacheGet s.dcache k = some d → newDerived s.reg k = .ok d
+
+theorem dinv_fresh (r : Registry) : DInv (CState.fresh r) := fun k d h => by simp [CState.fresh, dcacheGet] at h
+
+/-- `s'` has the registry of `s` and only adds correct entries to the derived part of the cache -/
+def DExt (s s' : CState) : Prop :=
+  s'.reg = s.reg ∧ ∀ k d, dcacheGet s'.dcache k = some d → dcacheGet s.dcache k = some d ∨ newDerived s.reg k = .ok d
+
+theorem dext_refl (s : CState) : DExt s s := ⟨rfl, fun _ _ h => Or.inl h⟩
+
+theorem dext_trans {a b c : CState} (h1 : DExt a b) (h2 : DExt b c) : DExt a c := by
+  refine ⟨h2.1.trans h1.1, ?_⟩
+  intro k d hk
+  rcases h2.2 k d hk with h | h
+  · exact h1.2 k d h
+  · rw [h1.1] at h; exact Or.inr h
+
+theorem dext_of_eq {s s' : CState} (hr : s'.reg = s.reg) (hd : s'.dcache = s.dcache) : DExt s s' :=
+  ⟨hr, fun k d h => by rw [hd] at h; exact Or.inl h⟩
+
+theorem dext_dinv {s s' : CState} (h : DExt s s') (hd : DInv s) : DInv s' := by
+  intro k d hk
+  rw [h.1]
+  rcases h.2 k d hk with h' | h'
+  · exact hd k d h'
+  · exact h'
+
+theorem check_dcache (s : CState) (c u : Sym) : (checkCategoryUnit lg s c u).1.dcache = s.dcache := by
+  unfold checkCategoryUnit
+  cases memoGet s.memo (c, u) <;> rfl
+
+theorem newQuantity_dcache (s : CState) (c u : Sym) : (newQuantity lg s c u).1.dcache = s.dcache := by
+  unfold newQuantity
+  split
+  · rfl
+  · split
+    · exact check_dcache lg s c u
+    · split
+      · split <;> exact (check_dcache lg _ c _).trans (check_dcache lg s c u)
+      · exact check_dcache lg s c u
+
+theorem obtain_dcache (s : CState) (cap : Bool) (c u : Sym) : (obtain lg s cap c u).1.dcache = s.dcache := by
+  unfold obtain
+  split
+  · rfl
+  · split
+    · rfl
+    · exact newQuantity_dcache lg s c u
+
+theorem obtainU_dcache (s : CState) (u : Sym) : (obtainU lg s u).1.dcache = s.dcache := by
+  unfold obtainU
+  split
+  · rfl
+  · split
+    · rfl
+    · split
+      · rfl
+      · split
+        · rfl
+        · split
+          · rfl
+          · exact newQuantity_dcache lg s _ _
+
+theorem copies_dcache (s : CState) (c1 v1 c2 v2 : Sym) : (copies lg s c1 v1 c2 v2).1.dcache = s.dcache := by
+  unfold copies
+  split
+  · exact obtain_dcache lg s true c1 v1
+  · exact (obtain_dcache lg _ true c2 v2).trans (obtain_dcache lg s true c1 v1)
+
+theorem sumSimple_dcache (s : CState) (a b : QObj) (x y : Rat) : (sumSimple lg s a b x y).1.dcache = s.dcache := by
+  unfold sumSimple
+  split
+  · rfl
+  · split
+    · rfl
+    · split
+      · rfl
+      · split
+        · split
+          · rfl
+          · exact copies_dcache lg s _ _ _ _
+        · exact copies_dcache lg s _ _ _ _
+
+/-- `ObtainQuantity(OrderedDict)` as a function of the registry -/
+def obtainDictPure (r : Registry) (entries : List (Sym × Sym × Int)) : Except ErrKind DObj :=
+  match simpleCase entries with
+  | some (c, u) => exMap descOfSimple (newQuantityPure lg r c u)
+  | none => newDerived r entries
+
+/-- `Quantity.CreateDerived` as a function of the registry -/
+def createDerivedPure (r : Registry) (entries : List (Sym × Sym × Int)) : Except ErrKind DObj :=
+  match validateEntries lg r entries with
+  | .error e => .error e
+  | .ok _ => obtainDictPure lg r entries
+
+theorem dcacheGet_cons (k : List (Sym × Sym × Int)) (d : DObj) (m : List (List (Sym × Sym × Int) × DObj))
+    (key : List (Sym × Sym × Int)) : dcacheGet ((k, d) :: m) key = if k = key then some d else dcacheGet m key := rfl
+
+theorem obtainDict_good (entries : List (Sym × Sym × Int)) {s : CState} (hs : SInv lg s) (hd : DInv s)
+    (hn : NoLegacySyms lg s.reg) :
+    (obtainDict lg s entries).2 = obtainDictPure lg s.reg entries ∧ SInv lg (obtainDict lg s entries).1
+      ∧ DExt s (obtainDict lg s entries).1 := by
+  unfold obtainDict obtainDictPure
+  cases simpleCase entries with
+  | some cu =>
+    obtain ⟨c, u⟩ := cu
+    obtain ⟨v, i, r⟩ := obtain_good lg false c u s hs hn
+    simp only at v i r ⊢
+    rw [v]
+    exact ⟨rfl, i, dext_of_eq r (obtain_dcache lg s false c u)⟩
+  | none =>
+    simp only
+    cases hc : dcacheGet s.dcache entries with
+    | some d => exact ⟨(hd _ _ hc).symm, hs, dext_refl s⟩
+    | none =>
+      simp only
+      cases hnd : newDerived s.reg entries with
+      | error e => exact ⟨rfl, hs, dext_refl s⟩
+      | ok d =>
+        refine ⟨rfl, hs, rfl, ?_⟩
+        intro k d' hk
+        simp only [dcacheGet_cons] at hk
+        split at hk
+        · rename_i hkk; cases hk; subst hkk; exact Or.inr hnd
+        · exact Or.inl hk
+
+theorem createDerived_good (entries : List (Sym × Sym × Int)) {s : CState} (hs : SInv lg s) (hd : DInv s)
+    (hn : NoLegacySyms lg s.reg) :
+    (createDerived lg s entries).2 = createDerivedPure lg s.reg entries ∧ SInv lg (createDerived lg s entries).1
+      ∧ DExt s (createDerived lg s entries).1 := by
+  unfold createDerived createDerivedPure
+  cases validateEntries lg s.reg entries with
+  | error e => exact ⟨rfl, hs, dext_refl s⟩
+  | ok _ => exact obtainDict_good lg entries hs hd hn
+
+/-- products and quotients of two simple operands, as a function of the registry -/
+def prodSimplePure (r : Registry) (op : ProdOp) (a b : QObj) (x y : Rat) : Except ErrKind (DObj × Rat) :=
+  match getCategoryInfo r a.cat with
+  | .error e => .error e
+  | .ok ca =>
+    match getCategoryInfo r b.cat with
+    | .error e => .error e
+    | .ok cb =>
+      match (if ca.qtype = cb.qtype then convert lg r ca.qtype b.unit a.unit y else .ok y) with
+      | .error e => .error e
+      | .ok y' =>
+        match mergeEntries op a b (if ca.qtype = cb.qtype then a.unit else b.unit) with
+        | .error e => .error e
+        | .ok es =>
+          match createDerivedPure lg r (prune es) with
+          | .error e => .error e
+          | .ok d =>
+            match op with
+            | .mul => .ok (d, x * y')
+            | .div => if y' = 0 then .error .other else .ok (d, x / y')
+
+theorem prodSimple_good (op : ProdOp) (a b : QObj) (x y : Rat) {s : CState} (hs : SInv lg s) (hd : DInv s)
+    (hn : NoLegacySyms lg s.reg) :
+    (prodSimple lg s op a b x y).2 = prodSimplePure lg s.reg op a b x y ∧ SInv lg (prodSimple lg s op a b x y).1
+      ∧ DExt s (prodSimple lg s op a b x y).1 := by
+  unfold prodSimple prodSimplePure
+  cases getCategoryInfo s.reg a.cat with
+  | error e => exact ⟨rfl, hs, dext_refl s⟩
+  | ok ca =>
+    simp only
+    cases getCategoryInfo s.reg b.cat with
+    | error e => exact ⟨rfl, hs, dext_refl s⟩
+    | ok cb =>
+      simp only
+      cases (if ca.qtype = cb.qtype then convert lg s.reg ca.qtype b.unit a.unit y else Except.ok y) with
+      | error e => exact ⟨rfl, hs, dext_refl s⟩
+      | ok y' =>
+        simp only
+        cases mergeEntries op a b (if ca.qtype = cb.qtype then a.unit else b.unit) with
+        | error e => exact ⟨rfl, hs, dext_refl s⟩
+        | ok es =>
+          simp only
+          obtain ⟨v, i, r⟩ := createDerived_good lg (prune es) hs hd hn
+          rw [v]
+          exact ⟨rfl, i, r⟩
+
 /-- **every query refines its cache-free meaning**: in a state that satisfies the cache invariant
 its answer is the answer on a freshly built database over the same registry, it keeps the cache
 invariant, and it does not change the registry -/
-theorem answer_refines (q : Query) {s : CState} (hs : SInv lg s) (hn : NoLegacySyms lg s.reg) :
+theorem answer_refines (q : Query) {s : CState} (hs : SInv lg s) (hn : NoLegacySyms lg s.reg) (hd : DInv s) :
     (answer lg s q).2 = spec lg s.reg q ∧ SInv lg (answer lg s q).1 ∧ (answer lg s q).1.reg = s.reg := by
   have hf := sinv_fresh lg s.reg
   have hnf : NoLegacySyms lg (CState.fresh s.reg).reg := hn
@@ -493,6 +677,53 @@ theorem answer_refines (q : Query) {s : CState} (hs : SInv lg s) (hn : NoLegacyS
   | defaultCategory u => exact ⟨rfl, hs, rfl⟩
   | quantityType u => exact ⟨rfl, hs, rfl⟩
   | catInfo c => exact ⟨rfl, hs, rfl⟩
+  | derived entries =>
+    obtain ⟨v, i, r⟩ := obtainDict_good lg entries hs hd hn
+    obtain ⟨v0, _, _⟩ := obtainDict_good lg entries hf (dinv_fresh s.reg) hnf
+    simp only [answer]
+    have v0' : (obtainDict lg (CState.fresh s.reg) entries).2 = obtainDictPure lg s.reg entries := v0
+    rw [v, v0']
+    exact ⟨rfl, i, r.1⟩
+  | createDerived entries =>
+    obtain ⟨v, i, r⟩ := createDerived_good lg entries hs hd hn
+    obtain ⟨v0, _, _⟩ := createDerived_good lg entries hf (dinv_fresh s.reg) hnf
+    simp only [answer]
+    have v0' : (createDerived lg (CState.fresh s.reg) entries).2 = createDerivedPure lg s.reg entries := v0
+    rw [v, v0']
+    exact ⟨rfl, i, r.1⟩
+  | prod op c1 u1 c2 u2 x y =>
+    obtain ⟨v, i, r⟩ := obtain_good lg false c1 u1 s hs hn
+    obtain ⟨v0, i0, r0⟩ := obtain_good lg false c1 u1 _ hf hnf
+    simp only [answer]
+    simp only at v v0 i r i0 r0
+    have r0' : (obtain lg (CState.fresh s.reg) false c1 u1).1.reg = s.reg := r0
+    have v0' : (obtain lg (CState.fresh s.reg) false c1 u1).2 = newQuantityPure lg s.reg c1 u1 := v0
+    have d1 : DInv (obtain lg s false c1 u1).1 := dext_dinv (dext_of_eq r (obtain_dcache lg s false c1 u1)) hd
+    have d10 : DInv (obtain lg (CState.fresh s.reg) false c1 u1).1 :=
+      dext_dinv (dext_of_eq r0 (obtain_dcache lg _ false c1 u1)) (dinv_fresh s.reg)
+    rw [v, v0']
+    cases newQuantityPure lg s.reg c1 u1 with
+    | error e => exact ⟨rfl, i, r⟩
+    | ok a =>
+      simp only
+      obtain ⟨w, j, t⟩ := obtain_good lg false c2 u2 _ i (by rw [r]; exact hn)
+      obtain ⟨w0, j0, t0⟩ := obtain_good lg false c2 u2 _ i0 (by rw [r0']; exact hn)
+      simp only at w w0 j t j0 t0
+      have d2 := dext_dinv (dext_of_eq t (obtain_dcache lg _ false c2 u2)) d1
+      have d20 := dext_dinv (dext_of_eq t0 (obtain_dcache lg _ false c2 u2)) d10
+      rw [r] at w
+      rw [r0'] at w0
+      rw [w, w0]
+      cases newQuantityPure lg s.reg c2 u2 with
+      | error e => exact ⟨rfl, j, t.trans r⟩
+      | ok b =>
+        simp only
+        obtain ⟨z, k, m⟩ := prodSimple_good lg op a b x y j d2 (by rw [t, r]; exact hn)
+        obtain ⟨z0, _, _⟩ := prodSimple_good lg op a b x y j0 d20 (by rw [t0, r0']; exact hn)
+        rw [t, r] at z
+        rw [t0, r0'] at z0
+        rw [z, z0]
+        exact ⟨rfl, k, (m.1.trans t).trans r⟩
 
 /-! ### queries never touch the registry (no hypothesis at all) -/
 
@@ -538,6 +769,44 @@ theorem sumSimple_reg (s : CState) (a b : QObj) (x y : Rat) : (sumSimple lg s a 
           · exact copies_reg lg s _ _ _ _
         · exact copies_reg lg s _ _ _ _
 
+theorem obtainDict_dext (s : CState) (entries : List (Sym × Sym × Int)) : DExt s (obtainDict lg s entries).1 := by
+  unfold obtainDict
+  cases simpleCase entries with
+  | some cu => exact dext_of_eq (obtain_reg lg s false cu.1 cu.2) (obtain_dcache lg s false cu.1 cu.2)
+  | none =>
+    simp only
+    cases dcacheGet s.dcache entries with
+    | some d => exact dext_refl s
+    | none =>
+      simp only
+      cases hnd : newDerived s.reg entries with
+      | error e => exact dext_refl s
+      | ok d =>
+        refine ⟨rfl, ?_⟩
+        intro k d' hk
+        simp only [dcacheGet_cons] at hk
+        split at hk
+        · rename_i hkk; cases hk; subst hkk; exact Or.inr hnd
+        · exact Or.inl hk
+
+theorem createDerived_dext (s : CState) (entries : List (Sym × Sym × Int)) : DExt s (createDerived lg s entries).1 := by
+  unfold createDerived
+  cases validateEntries lg s.reg entries with
+  | error e => exact dext_refl s
+  | ok _ => exact obtainDict_dext lg s entries
+
+theorem prodSimple_dext (s : CState) (op : ProdOp) (a b : QObj) (x y : Rat) : DExt s (prodSimple lg s op a b x y).1 := by
+  unfold prodSimple
+  split
+  · exact dext_refl s
+  · split
+    · exact dext_refl s
+    · split
+      · exact dext_refl s
+      · split
+        · exact dext_refl s
+        · exact createDerived_dext lg s _
+
 theorem answer_reg (s : CState) (q : Query) : (answer lg s q).1.reg = s.reg := by
   cases q with
   | check c u => exact (check_ext lg s c u).1
@@ -564,6 +833,54 @@ theorem answer_reg (s : CState) (q : Query) : (answer lg s q).1.reg = s.reg := b
   | defaultCategory u => rfl
   | quantityType u => rfl
   | catInfo c => rfl
+  | derived entries => exact (obtainDict_dext lg s entries).1
+  | createDerived entries => exact (createDerived_dext lg s entries).1
+  | prod op c1 u1 c2 u2 x y =>
+    simp only [answer]
+    split
+    · exact obtain_reg lg s false c1 u1
+    · split
+      · exact (obtain_reg lg _ false c2 u2).trans (obtain_reg lg s false c1 u1)
+      · exact ((prodSimple_dext lg _ op _ _ x y).1.trans (obtain_reg lg _ false c2 u2)).trans (obtain_reg lg s false c1 u1)
+
+/-- no query adds a wrong entry to the derived part of the cache -/
+theorem answer_dext (s : CState) (q : Query) : DExt s (answer lg s q).1 := by
+  have ob := fun (t : CState) (cap : Bool) (c u : Sym) => dext_of_eq (obtain_reg lg t cap c u) (obtain_dcache lg t cap c u)
+  cases q with
+  | check c u => exact dext_of_eq (check_ext lg s c u).1 (check_dcache lg s c u)
+  | create c u => exact ob s false c u
+  | createU u => exact dext_of_eq (obtainU_reg lg s u) (obtainU_dcache lg s u)
+  | createC c =>
+    simp only [answer]
+    split
+    · exact dext_refl s
+    · exact ob s false c _
+  | convert cq u v x => exact dext_refl s
+  | objValidUnits c u => exact ob s false c u
+  | isValid c u x => exact ob s false c u
+  | add c1 u1 c2 u2 x y =>
+    simp only [answer]
+    split
+    · exact ob s false c1 u1
+    · split
+      · exact dext_trans (ob s false c1 u1) (ob _ false c2 u2)
+      · exact dext_trans (dext_trans (ob s false c1 u1) (ob _ false c2 u2))
+          (dext_of_eq (sumSimple_reg lg _ _ _ x y) (sumSimple_dcache lg _ _ _ x y))
+  | validUnits c => exact dext_refl s
+  | baseUnit qt => exact dext_refl s
+  | units qt => exact dext_refl s
+  | defaultCategory u => exact dext_refl s
+  | quantityType u => exact dext_refl s
+  | catInfo c => exact dext_refl s
+  | derived entries => exact obtainDict_dext lg s entries
+  | createDerived entries => exact createDerived_dext lg s entries
+  | prod op c1 u1 c2 u2 x y =>
+    simp only [answer]
+    split
+    · exact ob s false c1 u1
+    · split
+      · exact dext_trans (ob s false c1 u1) (ob _ false c2 u2)
+      · exact dext_trans (dext_trans (ob s false c1 u1) (ob _ false c2 u2)) (prodSimple_dext lg _ op _ _ x y)
 
 /-! ### registrations whose unit symbols are not legacy spellings keep `NoLegacySyms` -/
 
@@ -625,10 +942,10 @@ theorem step_noLegacy {r : Registry} (hr : RegInv r) (h : NoLegacySyms lg r) {op
 
 /-- the invariant of a session: well-formed registry, memo tables that agree with it, no unit
 registered under a legacy spelling -/
-def Inv (s : CState) : Prop := RegInv s.reg ∧ SInv lg s ∧ NoLegacySyms lg s.reg
+def Inv (s : CState) : Prop := RegInv s.reg ∧ SInv lg s ∧ NoLegacySyms lg s.reg ∧ DInv s
 
 theorem inv_fresh_empty : Inv lg (CState.fresh Registry.empty) :=
-  ⟨regInv_empty, sinv_fresh lg _, fun u w h => by simp [CState.fresh, Registry.empty, ixGet] at h⟩
+  ⟨regInv_empty, sinv_fresh lg _, fun u w h => by simp [CState.fresh, Registry.empty, ixGet] at h, dinv_fresh _⟩
 
 /-- the step does not register a unit under a legacy spelling -/
 def opClean : COp → Bool
